@@ -64,6 +64,8 @@ def values_small(rng, r):
     vs = [0, 1, r - 1, r, r + 1, base - 1, base, base + 1, MAX, MAX + 1, base * base, base * base - 1]
     k = rng.randrange(2, 70)
     vs += [r ** k, r ** k - 1, r ** k + 1]
+    k = rng.choice([62, 63, 64])                 # 63 / 64 / 65 output digits
+    vs += [r ** k, r ** (k + 1) - 1, r ** k + rng.randrange(r ** k)]
     vs += [rand_len_value(rng, rng.choice([1, 2, 3, 5]))]
     return vs
 
